@@ -183,8 +183,14 @@ func signedData(slot int, e map[string]any) core.SignedData {
 			vidx = &x
 		}
 
-		att, err := core.NewVersionedAttestation(versionedAtt(ver, attData(slot, dindex, drv.Num(e["r"])),
-			bitlist(drv.Num(e["size"]), []any{e["pos"]}), []any{e["comm"]}, vidx))
+		// production (validatorapi router): an Electra single attestation carries an EMPTY aggregation bitlist, the
+		// validator index and one committee bit; before Electra the validator's own bit in its committee's bitlist
+		bits := bitlist(drv.Num(e["size"]), []any{e["pos"]})
+		if isEl(ver) {
+			bits = bitfield.NewBitlist(0)
+		}
+
+		att, err := core.NewVersionedAttestation(versionedAtt(ver, attData(slot, dindex, drv.Num(e["r"])), bits, []any{e["comm"]}, vidx))
 		if err != nil {
 			panic(err)
 		}
@@ -404,14 +410,30 @@ func (w *world) client() eth2wrap.Client {
 				return nil, apiErr(500)
 			}
 
+			// the validators of the duty table sit at their positions, the other seats are taken by strangers
+			seat := map[[2]int]int{}
+
+			for _, row := range obj(w.cfg["duty"]) {
+				for v, d := range obj(row) {
+					if x := arr(d); len(x) == 3 && drv.Num(x[0]) == st {
+						vi, _ := strconv.Atoi(v)
+						seat[[2]int{drv.Num(x[1]), drv.Num(x[2])}] = vi
+					}
+				}
+			}
+
 			var res []*eth2v1.BeaconCommittee
 
-			next := 1000 * st
+			next := 100000 + 100*st
 			for i, n := range sizes {
 				c := &eth2v1.BeaconCommittee{Slot: eth2p0.Slot(st), Index: eth2p0.CommitteeIndex(i)}
-				for range drv.Num(n) {
-					c.Validators = append(c.Validators, eth2p0.ValidatorIndex(next))
-					next++
+				for p := range drv.Num(n) {
+					if v, ok := seat[[2]int{i, p}]; ok {
+						c.Validators = append(c.Validators, eth2p0.ValidatorIndex(v))
+					} else {
+						c.Validators = append(c.Validators, eth2p0.ValidatorIndex(next))
+						next++
+					}
 				}
 
 				res = append(res, c)
